@@ -102,9 +102,12 @@ func (s *probedStore) rec(op byte, k, v []byte) {
 }
 
 func (s *probedStore) Get(key []byte) ([]byte, error) { s.rec('G', key, nil); return s.inner.Get(key) }
-func (s *probedStore) Has(key []byte) (bool, error)  { s.rec('H', key, nil); return s.inner.Has(key) }
-func (s *probedStore) Set(key, value []byte) error   { s.rec('S', key, value); return s.inner.Set(key, value) }
-func (s *probedStore) Delete(key []byte) error       { s.rec('D', key, nil); return s.inner.Delete(key) }
+func (s *probedStore) Has(key []byte) (bool, error)   { s.rec('H', key, nil); return s.inner.Has(key) }
+func (s *probedStore) Set(key, value []byte) error {
+	s.rec('S', key, value)
+	return s.inner.Set(key, value)
+}
+func (s *probedStore) Delete(key []byte) error { s.rec('D', key, nil); return s.inner.Delete(key) }
 func (s *probedStore) Iterator(start, end []byte) (corestore.Iterator, error) {
 	s.rec('I', start, end)
 	return s.inner.Iterator(start, end)
@@ -290,8 +293,8 @@ func (f ftfProbe) Mint(ctx sdk.Context, msg *ftftypes.MsgMint) (resp *ftftypes.M
 // store (so it participates in per-tx rollback and in the app hash), with unbounded
 // balances and an optional case-insensitive denom comparison.
 type LedgerDouble struct {
-	svc  corestore.KVStoreService
-	Fold bool
+	svc          corestore.KVStoreService
+	Fold         bool
 	MintingDenom string // minting denom
 }
 
